@@ -697,9 +697,48 @@ class C16(Check):
         self.sample({"reader": "adjacency", "file": next(t for k2, (kd, t) in meta.items() if kd == "adjacency")})
         # (c) uninitialised reads: valgrind memcheck on an unsanitized reader binary
         self.valgrind_pass(rng, 25 if self.tier == "quick" else 150)
+        # (d) the whole command line (sanitized binary) on shape-correct initial-affinity files whose *values* are
+        # extreme (huge, tiny, negative, zero): whatever the numbers do to the likelihood, no memory error / UB
+        self.frontend_pass(rng, 24 if self.tier == "quick" else 200)
         self.cov["rule"] = ("(a) valid inputs x all variants/label/weight types through the library under ASan+UBSan+LSan with assertions and _GLIBCXX_ASSERTIONS; "
                             "(b) 14 kinds of token/byte mutations of adjacency and affinity files through the real readers in-process, vector sized independently of the file; "
-                            "(c) valgrind memcheck (uninitialised values) on an unsanitized build of the readers; distinct by (reader, file bytes) / (variant, records, seed)")
+                            "(c) valgrind memcheck (uninitialised values) on an unsanitized build of the readers; "
+                            "(d) the sanitized command-line binary end to end on shape-correct affinity files with extreme values (1e308, -1e308, denormals, negatives, > 2^31); distinct by (reader, file bytes) / (variant, records, seed)")
+
+    def frontend_pass(self, rng, n):
+        extreme = ["1e308", "-1e308", "-1.7e308", "1.7e308", "1e154", "-1e154", "1e12", "1e-320", "4.9e-324", "0", "-0",
+                   "-1", "-0.05", "1e-7", "3e9", "2147483648", "1e19"]
+        for k in range(n):
+            K, L = rng.randint(2, 3), rng.randint(1, 3)
+            recs, L = gen.records(rng, wt="u", N=rng.randint(3, 5), L=L, nrec=rng.randint(2, 6), heavy=False)
+            undirected, assort = rng.random() < 0.4, rng.random() < 0.4
+            mode = rng.choice(["one", "one", "row", "all", "none"])
+            diag = [[fmt6(rng.random()) for _ in range(K)] for _ in range(L)]
+            if mode == "one":
+                diag[rng.randrange(L)][rng.randrange(K)] = rng.choice(extreme)
+            elif mode == "row":
+                diag[rng.randrange(L)] = [rng.choice(extreme) for _ in range(K)]
+            elif mode == "all":
+                x = rng.choice(extreme)
+                diag = [[x] * K for _ in range(L)]
+            wtext = "".join("%d %s\n" % (a, " ".join(diag[a])) for a in range(L))
+            adj = "".join("%s %s %s\n" % (s, d, " ".join(str(w) for w in ws)) for s, d, ws in recs)
+            argv = ["--a", "adj.dat", "--k", str(K), "--w", "w.dat", "--r", str(rng.choice([1, 2, 3])),
+                    "--maxit", str(rng.choice([1, 5, 12, 30])), "--s", str(rng.randint(0, 99)), "--o", "out"]
+            if undirected:
+                argv.append("--undirected")
+            if assort:
+                argv.append("--assortative")
+            res = run_cli(self.bdir, argv, {"adj.dat": adj, "w.dat": wtext}, os.path.join(self.bdir, "scratch", "fe%d" % k), timeout=120)
+            self.cov["evaluations"] += 1
+            self.monitor("command-line runs on extreme affinity values")
+            self.dist("frontend:%s:%s" % (mode, "ok" if res.rc == 0 else "status %s" % res.rc))
+            self.nontrivial(("frontend", wtext, adj, tuple(argv)))
+            if res.rc < 0 or res.rc in (77, 78, 134, 139, -999) or sanitizer_report(res.err):
+                self.violate("frontend-memory-or-ub", "command line on a shape-correct affinity file with extreme values: %s (status %s)"
+                             % (summarise(res.err), res.rc),
+                             {"argv": argv, "files": {"adj.dat": adj, "w.dat": wtext}, "status": res.rc, "stderr": res.err[-2500:]})
+            shutil.rmtree(os.path.join(self.bdir, "scratch", "fe%d" % k), ignore_errors=True)
 
     def valgrind_pass(self, rng, n):
         src = os.path.join(C.VERIF, "harness", "reader_main.cpp")
